@@ -1,4 +1,7 @@
 import OnlVerif.Lemmas.ResStep
+import OnlVerif.Lemmas.ConserveExamples
+import OnlVerif.Lemmas.StrandStep
+import OnlVerif.Lemmas.StrandDemo
 /-!
 # C07 — containers and stores are bounded, conservative, ordered, never strand a request
 
@@ -157,7 +160,503 @@ theorem cancel_rescans (s : KState ℚ σ) (e : EvId) (r : ResId) (hk : (s.ev e)
   unfold cancelReq
   simp only [hu, Bool.false_eq_true, if_false, hk, hq, if_true]
 
+/-! ## ---- begin: "never strand a request" (global theorems, builder b-strand) ----
+
+Vocabulary (`Lemmas/StrandDefs.lean`): `AboutToAdvance s` — the agenda is empty or its next entry is due strictly
+later than `s.now`; `SInv s` — the invariant (for every resource: the oldest pending put/get is unsatisfiable or a
+rescan of that queue is pending at the current instant, plus the structural facts that make this inductive);
+`DReach body fuel s0 s` — reachable by kernel steps of program `body`, each step inside the domain `stepDom` (no
+`succeed()/fail()` on a non-existent event or on a request still waiting in a queue); `NoTrigCalls` — the static
+sufficient condition "the program never calls `succeed()/fail()`". -/
+
+/-- **After a complete `_trigger_put` scan the oldest pending put cannot be satisfied** (Container: more than the free
+room; Store: the store is full). -/
+theorem put_scan_leaves_head_unsatisfiable (s : KState ℚ σ) (r : ResId) (h : Pkg s none) (e : EvId)
+    (he : ((triggerPut s r).res r).putQ.head? = some e) :
+    canPut (prePut (triggerPut s r) r e) r e = false :=
+  (triggerPut_post h r).2.2.2.1 e he
+
+/-- **After a complete `_trigger_get` scan the oldest pending get cannot be satisfied; for a `FilterStore` no pending
+get at all has a matching item.** -/
+theorem get_scan_leaves_head_unsatisfiable (s : KState ℚ σ) (r : ResId) (h : Pkg s none) :
+    (∀ e, ((triggerGet s r).res r).getQ.head? = some e → getItem (triggerGet s r) r e = none) ∧
+    (((triggerGet s r).res r).kind = .fstore → ∀ e ∈ ((triggerGet s r).res r).getQ, getItem (triggerGet s r) r e = none) :=
+  (triggerGet_post h r).2.2.2.1
+
+/-- **Cancelling keeps the invariant**: `cancel()` removes the request and rescans the queue in the same burst, so the
+requests behind a cancelled one are re-evaluated at once (`rem` = callbacks of the current event still to run). -/
+theorem cancel_keeps_invariant (s : KState ℚ σ) (rem : List Cb) (h : J s rem) (e : EvId) : J (cancelReq s e).1 rem :=
+  (h.cancel e).1
+
+/-- **The invariant, in every reachable state**: if the oldest pending put could be satisfied, a rescan of the put
+queue is pending at the current instant; if the oldest pending get (for a `FilterStore`: any pending get) could be
+satisfied, a rescan of the get queue is pending at the current instant. -/
+theorem satisfiable_head_implies_rescan_pending (body : σ → Resume → Burst ℚ σ) (fuel : Nat) (s0 s : KState ℚ σ)
+    (h0 : SInv s0) (hr : DReach body fuel s0 s) (r : ResId) :
+    (∀ e, (s.res r).putQ.head? = some e → canPut (prePut s r e) r e = true →
+      ∃ q ∈ s.agenda, q.time = s.now ∧ ∃ l, (s.ev q.ev).cbs = some l ∧ Cb.trigPut r ∈ l) ∧
+    (∀ e, (s.res r).getQ.head? = some e ∨ ((s.res r).kind = .fstore ∧ e ∈ (s.res r).getQ) → getItem s r e ≠ none →
+      ∃ q ∈ s.agenda, q.time = s.now ∧ ∃ l, (s.ev q.ev).cbs = some l ∧ Cb.trigGet r ∈ l) := by
+  have h := reach_sinv body fuel s0 s h0 hr
+  constructor
+  · intro e he hfree
+    rcases (h.j.main r).1 with hb | hp
+    · have := hb e he
+      unfold putOk at this
+      rw [this] at hfree; cases hfree
+    · rcases hp with hp | hp
+      · cases hp
+      · exact hp
+  · intro e he hsat
+    rcases (h.j.main r).2 with hb | hp
+    · exfalso
+      rcases he with he | ⟨hk, hm⟩
+      · exact hsat (hb.1 e he)
+      · exact hsat (hb.2 hk e hm)
+    · rcases hp with hp | hp
+      · cases hp
+      · exact hp
+
+/-- **Whenever the clock is about to advance, the oldest pending put and the oldest pending get genuinely cannot be
+satisfied in the current state** (for a `FilterStore`: no pending get has a matching item) — for every program, every
+reachable state, all of Container / Store / PriorityStore / FilterStore (and the Resource classes), also after other
+requests have been cancelled. -/
+theorem heads_unsatisfiable_at_advance (body : σ → Resume → Burst ℚ σ) (fuel : Nat) (s0 s : KState ℚ σ)
+    (h0 : SInv s0) (hr : DReach body fuel s0 s) (ha : AboutToAdvance s) (r : ResId) :
+    (∀ e, (s.res r).putQ.head? = some e → canPut (prePut s r e) r e = false) ∧
+    (∀ e, (s.res r).getQ.head? = some e → getItem s r e = none) ∧
+    ((s.res r).kind = .fstore → ∀ e ∈ (s.res r).getQ, getItem s r e = none) :=
+  have h := sinv_advance (reach_sinv body fuel s0 s h0 hr) ha r
+  ⟨h.1, h.2.1, h.2.2⟩
+
+/-- **… in plain words for a Container**: the oldest pending put asks for more than the free room, the oldest pending
+get for more than the level. -/
+theorem container_heads_at_advance (body : σ → Resume → Burst ℚ σ) (fuel : Nat) (s0 s : KState ℚ σ)
+    (h0 : SInv s0) (hr : DReach body fuel s0 s) (ha : AboutToAdvance s) (r : ResId) (hk : (s.res r).kind = .container) :
+    (∀ e, (s.res r).putQ.head? = some e →
+      ∃ c, (s.res r).capacity = some c ∧ (c : Int) - (s.res r).level < (reqOf s e).amount) ∧
+    (∀ e, (s.res r).getQ.head? = some e → (s.res r).level < (reqOf s e).amount) := by
+  obtain ⟨hp, hg, _⟩ := heads_unsatisfiable_at_advance body fuel s0 s h0 hr ha r
+  constructor
+  · intro e he
+    have := hp e he
+    rw [prePut_of_ne s r e (beq_preemptive_of_container hk)] at this
+    unfold canPut at this
+    simp only [hk] at this
+    cases hc : (s.res r).capacity with
+    | none => rw [hc] at this; cases this
+    | some c =>
+      rw [hc] at this
+      simp only [decide_eq_false_iff_not, not_le] at this
+      exact ⟨c, rfl, this⟩
+  · intro e he
+    have := hg e he
+    unfold getItem at this
+    simp only [hk] at this
+    split at this
+    · cases this
+    · rename_i hlt; exact not_le.mp hlt
+
+/-- **… in plain words for the stores**: a pending put at a clock advance means the store is full; a pending get on a
+`Store`/`PriorityStore` means the store is empty; on a `FilterStore` no stored item passes the filter of any pending
+get. -/
+theorem store_heads_at_advance (body : σ → Resume → Burst ℚ σ) (fuel : Nat) (s0 s : KState ℚ σ)
+    (h0 : SInv s0) (hr : DReach body fuel s0 s) (ha : AboutToAdvance s) (r : ResId)
+    (hk : isStoreKind (s.res r).kind = true) :
+    ((s.res r).putQ ≠ [] → ∃ c, (s.res r).capacity = some c ∧ c ≤ (s.res r).items.length) ∧
+    ((s.res r).kind ≠ .fstore → (s.res r).getQ ≠ [] → (s.res r).items = []) ∧
+    ((s.res r).kind = .fstore → ∀ e ∈ (s.res r).getQ, ∀ x ∈ (s.res r).items, filterOk (reqOf s e).filter x = false) := by
+  obtain ⟨hp, hg, hf⟩ := heads_unsatisfiable_at_advance body fuel s0 s h0 hr ha r
+  refine ⟨?_, ?_, ?_⟩
+  · intro hq
+    obtain ⟨e, rest, hqe⟩ := List.exists_cons_of_ne_nil hq
+    have := hp e (by rw [hqe]; rfl)
+    rw [prePut_of_ne s r e (not_preemptive_of_store hk)] at this
+    have hroom : hasRoom (s.res r).capacity (s.res r).items.length = false := by
+      unfold canPut at this
+      unfold isStoreKind at hk
+      cases hkk : (s.res r).kind <;> simp only [hkk] at this hk <;> first | exact this | exact absurd hk (by decide)
+    cases hc : (s.res r).capacity with
+    | none => rw [hc] at hroom; cases hroom
+    | some c =>
+      rw [hc, hasRoom_some] at hroom
+      simp only [decide_eq_false_iff_not, not_lt] at hroom
+      exact ⟨c, rfl, hroom⟩
+  · intro hnf hq
+    obtain ⟨e, rest, hqe⟩ := List.exists_cons_of_ne_nil hq
+    have := hg e (by rw [hqe]; rfl)
+    unfold getItem at this
+    unfold isStoreKind at hk
+    cases hkk : (s.res r).kind <;> simp only [hkk] at this hk hnf <;> first
+      | exact absurd hk (by decide)
+      | exact absurd rfl hnf
+      | (simp only [Option.map_eq_none_iff] at this
+         first
+           | exact List.head?_eq_none_iff.mp this
+           | exact listMin_eq_none _ this)
+  · intro hkf e hm x hx
+    have := hf hkf e hm
+    rw [getItem_fstore s r e hkf] at this
+    simp only [Option.map_eq_none_iff, List.find?_eq_none] at this
+    simpa using this x hx
+
+/-- **For programs that never call `succeed()/fail()` the domain hypothesis is automatic** (plain reachability `KReach`). -/
+theorem heads_unsatisfiable_at_advance_static (body : σ → Resume → Burst ℚ σ) (hb : ∀ st rs, NoTrigCalls (body st rs))
+    (fuel : Nat) (s0 s : KState ℚ σ) (h0 : SInv s0) (hr : KReach body fuel s0 s) (ha : AboutToAdvance s) (r : ResId) :
+    (∀ e, (s.res r).putQ.head? = some e → canPut (prePut s r e) r e = false) ∧
+    (∀ e, (s.res r).getQ.head? = some e → getItem s r e = none) ∧
+    ((s.res r).kind = .fstore → ∀ e ∈ (s.res r).getQ, getItem s r e = none) :=
+  heads_unsatisfiable_at_advance body fuel s0 s h0 (dreach_of_noTrig body hb fuel s0 s hr) ha r
+
+/-! non-vacuity of the block above: `Container(capacity=10, init=7)` with a pending `put(5)` (event 0) at a moment
+when nothing is scheduled: the invariant holds, the clock is about to advance, the head put is genuinely blocked. -/
+example :
+    let s : KState ℚ Unit :=
+      { now := 0,
+        events := #[{ kind := .put 0, cbs := some [.trigGet 0], out := none,
+                      req := some { res := 0, amount := 5, time := 0 } }],
+        resources := #[{ kind := .container, capacity := some 10, level := 7, putQ := [0] }] }
+    SInv s ∧ AboutToAdvance s ∧ (s.res 0).putQ = [0] ∧ canPut (prePut s 0 0) 0 0 = false := by
+  intro s
+  have hev : ∀ x, s.ev x = if x = 0 then
+        { kind := .put 0, cbs := some [.trigGet 0], out := none, req := some { res := 0, amount := 5, time := 0 } }
+      else default := by
+    intro x
+    match x with
+    | 0 => rfl
+    | n + 1 => simp [s, KState.ev]
+  have hres : ∀ r, s.res r = if r = 0 then { kind := .container, capacity := some 10, level := 7, putQ := [0] }
+      else default := by
+    intro r
+    match r with
+    | 0 => rfl
+    | n + 1 => simp [s, KState.res]
+  have hblocked : canPut (prePut s 0 0) 0 0 = false := by
+    rw [prePut_of_ne s 0 0 (by rw [hres]; simp)]
+    unfold canPut reqOf; rw [hres, hev]; decide
+  refine ⟨⟨⟨(by intro q hq; cases hq), (by intro q hq; cases hq), List.Pairwise.nil⟩,
+    ⟨⟨?_, ?_, ?_, ?_, ?_, ?_, ?_, ?_, ?_⟩, ?_, ?_⟩⟩, (by intro q rest hq; cases hq), (by rw [hres]; rfl), hblocked⟩
+  · intro q hq; cases hq
+  · intro p hp; exact absurd rfl hp
+  · intro x l c hl hm
+    rw [hev] at hl
+    split at hl
+    · simp only [Option.some.injEq] at hl; subst hl; simp at hm
+    · cases hl
+  · intro r e hm
+    rw [hres] at hm
+    split at hm
+    · rename_i hr; subst hr
+      simp only [List.mem_singleton] at hm; subst hm
+      rw [hev]; exact ⟨rfl, Or.inl rfl, [.trigGet 0], rfl, List.mem_singleton.mpr rfl⟩
+    · cases hm
+  · intro r e hm
+    rw [hres] at hm
+    split at hm <;> cases hm
+  · intro r; rw [hres]; split
+    · simp
+    · exact List.nodup_nil
+  · intro r; rw [hres]; split <;> exact List.nodup_nil
+  · intro r w hm
+    rw [hres] at hm
+    split at hm <;> cases hm
+  · intro r c hk hc
+    by_cases hr : r = 0
+    · subst hr
+      rw [hres]; exact Nat.zero_le _
+    · rw [hres, if_neg hr]; exact Nat.zero_le _
+  · intro c hc; cases hc
+  · intro r
+    refine ⟨Or.inl ?_, Or.inl ⟨?_, ?_⟩⟩
+    · intro e he
+      rw [hres] at he
+      split at he
+      · rename_i hr; subst hr
+        simp only [List.head?_cons, Option.some.injEq] at he; subst he
+        exact hblocked
+      · cases he
+    · intro e he
+      rw [hres] at he
+      split at he <;> cases he
+    · intro _ e he
+      rw [hres] at he
+      split at he <;> cases he
+
+/-! non-vacuity by a run (`Lemmas/StrandDemo.lean`): `Container(capacity=10, init=7)`; one process issues `put(5)`
+(blocked) and will cancel it at time 1, a second one issues `put(1)` (queued behind).  After two kernel steps both are
+queued and only the timeout at 1 is scheduled: all hypotheses hold and the head `put(5)` is indeed blocked.  Four steps
+later (the cancel and what it triggered) the queue is empty and the level is 8: the `put(1)` was not stranded. -/
+example : SInv Demo.conS0 ∧ DReach Demo.conBody 3 Demo.conS0 Demo.conS2 ∧ AboutToAdvance Demo.conS2 ∧
+    (Demo.conS2.res 0).putQ.length = 2 ∧
+    (∀ e, (Demo.conS2.res 0).putQ.head? = some e → canPut (prePut Demo.conS2 0 e) 0 e = false) ∧
+    DReach Demo.conBody 3 Demo.conS0 Demo.conS6 ∧ AboutToAdvance Demo.conS6 ∧
+    (Demo.conS6.res 0).putQ.length = 0 ∧ (Demo.conS6.res 0).level = 8 :=
+  ⟨Demo.conS0_sinv, Demo.conS2_reach, Demo.conS2_advance, Demo.conS_facts.1,
+    (heads_unsatisfiable_at_advance _ 3 _ _ Demo.conS0_sinv Demo.conS2_reach Demo.conS2_advance 0).1,
+    Demo.conS6_reach, Demo.conS6_advance, Demo.conS_facts.2.2.1, Demo.conS_facts.2.2.2⟩
+
+/-! ## ---- end: "never strand a request" ---- -/
+
 /-! non-vacuity -/
 example : listMin [5, 2, 9, 2] = some 2 := by decide
+
+section ConserveBlock
+open Conserve
+
+/-! ## ===== b-conserve: global conservation theorems (whole runs, every program) — BEGIN =====
+
+Vocabulary (`Lemmas/Conserve*.lean`).  A request event is *granted* exactly when it is triggered.
+`grantedPuts s r` / `grantedGets s r`: the triggered put / get events of resource `r` in the event table of `s`;
+`amountSum s l`: the sum of the amounts the requests in `l` carry; `putItems s r`: the items of the granted puts;
+`gotItems s r`: the values `x` with which get events of `r` were triggered (`out = ok (int x)`).
+`WF s0`: the initial state is well-formed (callbacks `check c`/`build c` name conditions, process-table entries name
+process events, queues hold untriggered requests of their own resource, no duplicates) — `WF.init`: every fresh
+environment is.  `SafeReach body fuel s0 s`: `s` is reachable from `s0` by kernel steps of program `body` during
+which no `succeed`/`fail` API call of the program targets a request event (`stepOK`; the real `_do_put` would raise
+"already triggered" there — outside the domain of C07).  `domain_covers_programs_without_succeed` shows the
+hypothesis is met by every run of every program that never calls `succeed`/`fail`; the examples exhibit concrete runs. -/
+
+/-- **A Container's level equals its initial level plus all granted puts minus all granted gets** — in every state
+any program can reach from an environment in which no request has been issued yet. -/
+theorem level_conservation (body : σ → Resume → Burst ℚ σ) (fuel : Nat) (s0 s : KState ℚ σ)
+    (hW : WF s0) (h0 : ∀ e, isReq s0 e = false) (hr : SafeReach body fuel s0 s)
+    (r : ResId) (hk : (s.res r).kind = .container) :
+    (s.res r).level = (s0.res r).level + amountSum s (grantedPuts s r) - amountSum s (grantedGets s r) := by
+  have h := reach_levelCons body fuel s0 s hW hr r hk
+  rw [grantedPuts_noReq s0 r h0, grantedGets_noReq s0 r h0] at h
+  simp only [amountSum, List.map_nil, List.sum_nil] at h
+  have h' : (s.res r).level - amountSum s (grantedPuts s r) + amountSum s (grantedGets s r) = (s0.res r).level := by
+    simpa [amountSum] using h
+  omega
+
+/-- **The same between any two states of a run**: `level − Σ granted puts + Σ granted gets` is a constant of every run. -/
+theorem level_conservation_between (body : σ → Resume → Burst ℚ σ) (fuel : Nat) (s s' : KState ℚ σ)
+    (hW : WF s) (hr : SafeReach body fuel s s') (r : ResId) (hk : (s'.res r).kind = .container) :
+    (s'.res r).level - amountSum s' (grantedPuts s' r) + amountSum s' (grantedGets s' r) =
+      (s.res r).level - amountSum s (grantedPuts s r) + amountSum s (grantedGets s r) :=
+  reach_levelCons body fuel s s' hW hr r hk
+
+/-- **Every item a Store / PriorityStore / FilterStore accepted is handed to exactly one getter exactly once**: as
+multisets, items still held ⊎ items handed to getters = initial items ⊎ items of the granted puts. -/
+theorem store_exactly_once (body : σ → Resume → Burst ℚ σ) (fuel : Nat) (s0 s : KState ℚ σ)
+    (hW : WF s0) (h0 : ∀ e, isReq s0 e = false) (hr : SafeReach body fuel s0 s)
+    (r : ResId) (hk : isStoreKind (s.res r).kind = true) :
+    ((s.res r).items ++ gotItems s r).Perm ((s0.res r).items ++ putItems s r) := by
+  have h := reach_storeCons body fuel s0 s hW hr r hk
+  have hp0 : putItems s0 r = [] := by unfold putItems; rw [grantedPuts_noReq s0 r h0]; rfl
+  rw [gotItems_noReq s0 r h0, hp0] at h
+  simpa using h
+
+/-- **A granted get of a store carries exactly one item** (its outcome is `ok (int x)` for one `x`). -/
+theorem store_get_carries_one_item (body : σ → Resume → Burst ℚ σ) (fuel : Nat) (s0 s : KState ℚ σ)
+    (hW : WF s0) (h0 : ∀ e, isReq s0 e = false) (hr : SafeReach body fuel s0 s)
+    (r : ResId) (e : EvId) (hk : isStoreKind (s.res r).kind = true) (hg : (s.ev e).kind = .get r)
+    (ht : (s.ev e).out ≠ none) : ∃ x, (s.ev e).out = some (.ok (.int x)) :=
+  ((StoreRel.crel.reach body fuel s0 s hW hr).2 hW).2 (gotInt_noReq s0 h0) r e hk hg ht
+
+/-- **A request is granted at most once: the outcome of a granted request never changes afterwards**, and neither do
+its kind nor the data it carries (amount, item, priority, time, filter). -/
+theorem granted_outcome_never_changes (body : σ → Resume → Burst ℚ σ) (fuel : Nat) (s0 s s' : KState ℚ σ)
+    (hW : WF s0) (hr0 : SafeReach body fuel s0 s) (hr : SafeReach body fuel s s')
+    (e : EvId) (hq : isReq s e = true) (ht : (s.ev e).out ≠ none) :
+    (s'.ev e).out = (s.ev e).out ∧ (s'.ev e).kind = (s.ev e).kind ∧ coreOf s' e = coreOf s e := by
+  have hWs := (reach_base body fuel s0 s hW hr0).2
+  have hB := (reach_base body fuel s s' hWs hr).1
+  have hlt := lt_size_of_isReq hq
+  exact ⟨hB.outStable e hq ht, hB.kind e hlt, hB.core e hlt⟩
+
+/-- **Queues only ever hold untriggered requests of their own resource, without duplicates** (so `trigger` is only
+ever applied to an untriggered request: the scans grant queue members only), in every reachable state. -/
+theorem queues_hold_pending_requests (body : σ → Resume → Burst ℚ σ) (fuel : Nat) (s0 s : KState ℚ σ)
+    (hW : WF s0) (hr : SafeReach body fuel s0 s) (r : ResId) :
+    (∀ e ∈ (s.res r).putQ, (s.ev e).kind = .put r ∧ (s.ev e).out = none) ∧ (s.res r).putQ.Nodup ∧
+    (∀ e ∈ (s.res r).getQ, (s.ev e).kind = .get r ∧ (s.ev e).out = none) ∧ (s.res r).getQ.Nodup :=
+  have h := (reach_base body fuel s0 s hW hr).2
+  ⟨h.putQ r, h.putNodup r, h.getQ r, h.getNodup r⟩
+
+/-- **The domain hypothesis is satisfiable by whole classes of programs**: for a program that never calls
+`succeed`/`fail`, every reachable state is reachable inside the domain. -/
+theorem domain_covers_programs_without_succeed (body : σ → Resume → Burst ℚ σ) (h : ∀ st rs, NoTrig (body st rs))
+    (fuel : Nat) (s0 s : KState ℚ σ) (hr : KReach body fuel s0 s) : SafeReach body fuel s0 s :=
+  safeReach_of_noTrig body h fuel s0 s hr
+
+/-! non-vacuity: `Container(capacity=10, init=1)`, one process doing `put(3); put(2); get(4)`: two granted puts and one
+granted get, level `1 + 3 + 2 − 4 = 2` -/
+example : WF ExContainer.s0 ∧ (∀ e, isReq ExContainer.s0 e = false) ∧ SafeReach ExContainer.body 5 ExContainer.s0 ExContainer.s1 :=
+  ⟨ExContainer.wf0, ExContainer.noReq0, ExContainer.reach⟩
+example : (ExContainer.s1.res 0).kind = .container :=
+  ((reach_base _ _ _ _ ExContainer.wf0 ExContainer.reach).1.resKind 0).trans rfl
+example : (ExContainer.s0.res 0).level = 1 ∧ (ExContainer.s1.res 0).level = 2 ∧
+    grantedPuts ExContainer.s1 0 = [2, 3] ∧ grantedGets ExContainer.s1 0 = [4] ∧
+    amountSum ExContainer.s1 (grantedPuts ExContainer.s1 0) = 5 ∧ amountSum ExContainer.s1 (grantedGets ExContainer.s1 0) = 4 := by
+  decide +kernel
+/-! non-vacuity: `Store(capacity=2)`, `put(7); put(5); put(9); get()`: after four kernel steps the third put has been
+granted by the rescan the get caused; the getter holds 7, the store holds 5 and 9 -/
+example : WF ExStore.s0 ∧ (∀ e, isReq ExStore.s0 e = false) ∧ SafeReach ExStore.body 5 ExStore.s0 ExStore.s4 :=
+  ⟨ExStore.wf0, ExStore.noReq0, ExStore.reach4⟩
+example : isStoreKind (ExStore.s4.res 0).kind = true ∧ (ExStore.s4.res 0).items = [5, 9] ∧ gotItems ExStore.s4 0 = [7] ∧
+    putItems ExStore.s4 0 = [7, 5, 9] ∧ (ExStore.s1.res 0).putQ = [4] ∧ (ExStore.s4.res 0).putQ = [] := by
+  decide +kernel
+
+/-! ### b-conserve, part 2: first come first served, along whole runs
+
+`Before l a b`: `a` stands before `b` in `l`.  `AUnit t t'`: one atomic unit of the model with the guard under which
+the model executes it (see `Lemmas/ConserveTrace.lean`); every run is a finite sequence of such units
+(`C06.run_is_unit_sequence`). -/
+
+/-- **Put queues and get queues of containers and stores are in creation order (event ids increasing)** and hold only
+waiting requests of their own resource, each once — in every reachable state. -/
+theorem queues_in_creation_order (body : σ → Resume → Burst ℚ σ) (fuel : Nat) (s0 s : KState ℚ σ)
+    (hW : WF s0) (hS : QSorted s0) (hr : SafeReach body fuel s0 s) (r : ResId) (hk : isPrioKind (s.res r).kind = false) :
+    (s.res r).putQ.Pairwise (fun a b => a < b) ∧ (s.res r).getQ.Pairwise (fun a b => a < b) := by
+  have h := (reach_queue body fuel s0 s hW hr).2 hS
+  refine ⟨?_, h.get r⟩
+  have := h.put r
+  rw [hk] at this
+  exact this.imp (fun hab => by unfold rankLt at hab; simpa using hab)
+
+/-- **Put requests are served first come first served, along whole runs**: if put `a` is queued before put `b` in some
+reachable state, then in every later state in which `b` has been granted, `a` has been granted too, or was cancelled. -/
+theorem fcfs_put_global (body : σ → Resume → Burst ℚ σ) (fuel : Nat) (s0 s s' : KState ℚ σ)
+    (hW : WF s0) (hr0 : SafeReach body fuel s0 s) (hr : SafeReach body fuel s s') (r : ResId) (a b : EvId)
+    (hab : Before (s.res r).putQ a b) (hb : (s'.ev b).out ≠ none) :
+    (s'.ev a).out ≠ none ∨ (a ∉ (s'.res r).putQ ∧ (s'.ev a).out = none) :=
+  have hWs := (reach_base body fuel s0 s hW hr0).2
+  ((reach_queue body fuel s s' hWs hr).1.put r).order trivial a b hab hb
+
+/-- **Get requests are served first come first served, along whole runs — for every class except FilterStore.** -/
+theorem fcfs_get_global (body : σ → Resume → Burst ℚ σ) (fuel : Nat) (s0 s s' : KState ℚ σ)
+    (hW : WF s0) (hr0 : SafeReach body fuel s0 s) (hr : SafeReach body fuel s s') (r : ResId) (a b : EvId)
+    (hf : (s.res r).kind ≠ .fstore) (hab : Before (s.res r).getQ a b) (hb : (s'.ev b).out ≠ none) :
+    (s'.ev a).out ≠ none ∨ (a ∉ (s'.res r).getQ ∧ (s'.ev a).out = none) :=
+  have hWs := (reach_base body fuel s0 s hW hr0).2
+  ((reach_queue body fuel s s' hWs hr).1.get r).order hf a b hab hb
+
+/-- **A cancelled request (put or get) is never granted and never re-enters its queue; requests that stay queued keep
+their relative order** — for every class, FilterStore included. -/
+theorem cancelled_stays_cancelled (body : σ → Resume → Burst ℚ σ) (fuel : Nat) (s0 s s' : KState ℚ σ)
+    (hW : WF s0) (hr0 : SafeReach body fuel s0 s) (hr : SafeReach body fuel s s') (r : ResId) :
+    (∀ a, (s.ev a).kind = .put r → a ∉ (s.res r).putQ → (s.ev a).out = none → a ∉ (s'.res r).putQ ∧ (s'.ev a).out = none) ∧
+    (∀ a, (s.ev a).kind = .get r → a ∉ (s.res r).getQ → (s.ev a).out = none → a ∉ (s'.res r).getQ ∧ (s'.ev a).out = none) ∧
+    (∀ a b, Before (s.res r).getQ a b → a ∈ (s'.res r).getQ → b ∈ (s'.res r).getQ → Before (s'.res r).getQ a b) :=
+  have hWs := (reach_base body fuel s0 s hW hr0).2
+  have h := (reach_queue body fuel s s' hWs hr).1
+  ⟨(h.put r).dead, (h.get r).dead, (h.get r).keep⟩
+
+/-- **A put is granted only while it is the oldest waiting put and `_do_put`'s guard holds** (the only atomic unit
+that triggers a waiting put request is `_do_put` on the head of the queue). -/
+theorem put_granted_only_at_head (t t' : KState ℚ σ) (h : AUnit t t') (r : ResId) (e : EvId)
+    (hk : (t.ev e).kind = .put r) (ho : (t.ev e).out = none) (ho' : (t'.ev e).out ≠ none) :
+    ∃ rest, (t.res r).putQ = e :: rest ∧ canPut t r e = true ∧ t' = grantPutSt t r e :=
+  h.grant_put hk ho ho'
+
+/-- **A get is granted only in its turn; only FilterStore lets a later getter overtake, and only getters whose filter
+matches nothing**: at the moment get `e` is granted it can be served (`getItem = some v`), it receives `v`, and every
+queue member in front of it belongs to a FilterStore and matches no item at that moment. -/
+theorem get_granted_only_in_turn (t t' : KState ℚ σ) (h : AUnit t t') (r : ResId) (e : EvId)
+    (hk : (t.ev e).kind = .get r) (ho : (t.ev e).out = none) (ho' : (t'.ev e).out ≠ none) :
+    ∃ v pre rest, (t.res r).getQ = pre ++ e :: rest ∧ getItem t r e = some v ∧ (t'.ev e).out = some (.ok v) ∧
+      (∀ a ∈ pre, (t.res r).kind = .fstore ∧
+        (t.res r).items.find? (filterOk (reqOf t a).filter) = none) ∧
+      ((t.res r).kind ≠ .fstore → pre = []) := by
+  obtain ⟨v, pre, rest, hq, hg, hp, hs⟩ := h.grant_get hk ho ho'
+  have hWt : WF t := by cases h <;> assumption
+  refine ⟨v, pre, rest, hq, hg, ?_, ?_, ?_⟩
+  · rw [hs]; exact (Base.getEffect_of_guard hWt hq hg).outE
+  · intro a ha
+    obtain ⟨hf, hn⟩ := hp a ha
+    refine ⟨hf, ?_⟩
+    unfold getItem at hn
+    simp only [hf, Option.map_eq_none_iff] at hn
+    exact hn
+  · intro hf
+    cases pre with
+    | nil => rfl
+    | cons p ps => exact absurd (hp p List.mem_cons_self).1 hf
+
+/-- **PriorityStore hands out a smallest item, at every grant of every run**: at the moment a get of a PriorityStore
+is granted, the value it receives is an item of the store and no item of the store is smaller. -/
+theorem pstore_grant_is_min (t t' : KState ℚ σ) (h : AUnit t t') (r : ResId) (e : EvId)
+    (hk : (t.ev e).kind = .get r) (ho : (t.ev e).out = none) (ho' : (t'.ev e).out ≠ none)
+    (hp : (t.res r).kind = .pstore) :
+    ∃ m, (t'.ev e).out = some (.ok (.int m)) ∧ m ∈ (t.res r).items ∧ ∀ y ∈ (t.res r).items, m ≤ y := by
+  obtain ⟨v, pre, rest, _, hg, hout, _, _⟩ := get_granted_only_in_turn t t' h r e hk ho ho'
+  obtain ⟨m, hv, hm⟩ := pstore_smallest_first t r e v hp hg
+  exact ⟨m, by rw [hout, hv], hm⟩
+
+/-- **Along every run, every granted get was granted in its turn and received what `_do_get` selects at that moment**:
+if get `e` waits in a reachable state `s` and has been granted in a later state `s'`, the run passed through a state `t`
+in which `e` could be served with `v` (`getItem`: oldest item for Store, a smallest for PriorityStore, first match for
+FilterStore), every queue member in front of `e` belonged to a FilterStore and matched no item, and `e`'s outcome in
+`s'` is `v`. -/
+theorem every_get_grant_was_in_turn (body : σ → Resume → Burst ℚ σ) (fuel : Nat) (s0 s s' : KState ℚ σ)
+    (hW : WF s0) (hr0 : SafeReach body fuel s0 s) (hr : SafeReach body fuel s s') (r : ResId) (e : EvId)
+    (hk : (s.ev e).kind = .get r) (ho : (s.ev e).out = none) (ho' : (s'.ev e).out ≠ none) :
+    ∃ t v pre rest, UnitSeq s t ∧ UnitSeq (grantGetSt t r e v) s' ∧ (t.res r).getQ = pre ++ e :: rest ∧
+      getItem t r e = some v ∧ (∀ a ∈ pre, (t.res r).kind = .fstore ∧ getItem t r a = none) ∧ (t.ev e).out = none ∧
+      (s'.ev e).out = some (.ok v) :=
+  have hWs := (reach_base body fuel s0 s hW hr0).2
+  (reach_units body fuel s s' hWs hr).grant_get_moment hk ho ho'
+
+/-- **Along every run, a granted get of a PriorityStore received a smallest item of the store at the moment of the grant.** -/
+theorem pstore_smallest_first_global (body : σ → Resume → Burst ℚ σ) (fuel : Nat) (s0 s s' : KState ℚ σ)
+    (hW : WF s0) (hr0 : SafeReach body fuel s0 s) (hr : SafeReach body fuel s s') (r : ResId) (e : EvId)
+    (hp : (s.res r).kind = .pstore)
+    (hk : (s.ev e).kind = .get r) (ho : (s.ev e).out = none) (ho' : (s'.ev e).out ≠ none) :
+    ∃ t m, UnitSeq s t ∧ UnitSeq (grantGetSt t r e (.int m)) s' ∧ (s'.ev e).out = some (.ok (.int m)) ∧
+      m ∈ (t.res r).items ∧ ∀ y ∈ (t.res r).items, m ≤ y := by
+  obtain ⟨t, v, pre, rest, ht, ht', _, hg, _, _, hout⟩ :=
+    every_get_grant_was_in_turn body fuel s0 s s' hW hr0 hr r e hk ho ho'
+  have hpt : (t.res r).kind = .pstore := by rw [ht.base.resKind]; exact hp
+  obtain ⟨m, hv, hm⟩ := pstore_smallest_first t r e v hpt hg
+  subst hv
+  exact ⟨t, m, ht, ht', hout, hm⟩
+
+/-! non-vacuity: in the Store run above the put of 9 (event 4) waits in `s1`, and is granted in `s4` -/
+example : (ExStore.s1.ev 4).kind = .put 0 ∧ ExStore.s1.triggered 4 = false ∧ ExStore.s4.triggered 4 = true ∧
+    (ExStore.s1.res 0).putQ = [4] := by decide +kernel
+
+/-! ### b-conserve, part 3: a Store is first-in first-out across the whole run -/
+
+/-- **Store hands items out in insertion order, across the whole run**: as lists, the initial items followed by the
+items of the granted puts (in creation order of the puts — which is the order in which a Store grants them,
+`fcfs_put_global`) equal the items handed to the getters (in creation order of the gets — the order in which they are
+granted, `fcfs_get_global`) followed by the items still held. -/
+theorem store_fifo_global (body : σ → Resume → Burst ℚ σ) (fuel : Nat) (s0 s : KState ℚ σ)
+    (hW : WF s0) (hS : QSorted s0) (h0 : ∀ e, isReq s0 e = false) (hr : SafeReach body fuel s0 s)
+    (r : ResId) (hk : (s.res r).kind = .store) :
+    (s0.res r).items ++ putItems s r = gotItems s r ++ (s.res r).items :=
+  reach_fifo body fuel s0 s hW hS h0 hr r hk
+
+/-- **The k-th granted get of a Store receives the k-th accepted item.** -/
+theorem store_kth_get_receives_kth_item (body : σ → Resume → Burst ℚ σ) (fuel : Nat) (s0 s : KState ℚ σ)
+    (hW : WF s0) (hS : QSorted s0) (h0 : ∀ e, isReq s0 e = false) (hr : SafeReach body fuel s0 s)
+    (r : ResId) (hk : (s.res r).kind = .store) (k : Nat) (hlt : k < (gotItems s r).length) :
+    (gotItems s r)[k]? = ((s0.res r).items ++ putItems s r)[k]? := by
+  rw [store_fifo_global body fuel s0 s hW hS h0 hr r hk, List.getElem?_append_left hlt]
+
+/-! non-vacuity: the Store run above: accepted `[7, 5, 9]` = handed out `[7]` ++ held `[5, 9]` -/
+example : QSorted ExStore.s0 := ExStore.sorted0
+example : (ExStore.s4.res 0).kind = .store :=
+  ((reach_base _ _ _ _ ExStore.wf0 ExStore.reach4).1.resKind 0).trans rfl
+example : (ExStore.s0.res 0).items ++ putItems ExStore.s4 0 = [7, 5, 9] ∧
+    gotItems ExStore.s4 0 ++ (ExStore.s4.res 0).items = [7, 5, 9] := by decide +kernel
+
+/-! ### b-conserve: the domain hypothesis is neither vacuous nor dispensable
+
+* a program that calls `succeed` on a *plain* event and then uses a container is inside the domain (`stepOK` is
+  decidable: `Lemmas/ConserveDecide.lean`), and conservation holds for its run;
+* a program that calls `succeed` on its own waiting `ContainerPut(20)` is outside the domain, and for that run the
+  conservation equation is indeed false in the model (level 1, "granted" puts 20): the hypothesis cannot be dropped. -/
+example : WF ExSucceed.s0 ∧ (∀ e, isReq ExSucceed.s0 e = false) ∧ SafeReach ExSucceed.body 5 ExSucceed.s0 ExSucceed.s1 :=
+  ⟨ExSucceed.wf0, ExSucceed.noReq0, ExSucceed.reach⟩
+example : (ExSucceed.s1.res 0).level = 4 ∧ amountSum ExSucceed.s1 (grantedPuts ExSucceed.s1 0) = 3 ∧
+    grantedGets ExSucceed.s1 0 = [] := by decide +kernel
+example : ¬ stepOK ExBad.body 5 ExBad.s0 := by decide +kernel
+example : (ExBad.s0.res 0).level = 1 ∧ (ExBad.s1.res 0).level = 1 ∧ amountSum ExBad.s1 (grantedPuts ExBad.s1 0) = 20 ∧
+    grantedGets ExBad.s1 0 = [] := by decide +kernel
+
+/-! ## ===== b-conserve — END ===== -/
+end ConserveBlock
 
 end C07
